@@ -64,48 +64,77 @@ impl Obj {
         }
     }
 
-    /// build the real object and hash it through the public ChallengeBuilder API
-    fn hash(&self, book: &Book) -> Option<(Vec<u8>, Scalar)> {
+    /// wire encoding of the real object (for the kinds that are built by decoding)
+    fn bytes(&self, book: &Book) -> Option<Vec<u8>> {
         let e: Vec<Vec<u8>> = self.atoms.iter().map(|x| enc(book, x)).collect();
         let zero = wire::enc_s(&Scalar::zero());
         let n = self.n;
         let cp = |c: &Vec<u8>, t: &Vec<u8>| wire::cat(vec![c.clone(), t.clone(), zero.clone(), wire::arr(vec![zero.clone(); n])]);
-        macro_rules! with_n { ($f:ident) => { match n { 1 => $f!(1), 2 => $f!(2), 3 => $f!(3), 5 => $f!(5), _ => None } } }
-        match self.kind {
-            "scalar" => record(&self.atoms[0].1),
-            "g1affine" => record(&book.g1a(self.atoms[0].1)),
-            "g1projective" => record(&book.g1(self.atoms[0].1)),
-            "g2affine" => record(&book.g2a(self.atoms[0].1)),
-            "g2projective" => record(&book.g2(self.atoms[0].1)),
-            "commitment-g1" => record(&wire::de::<Commitment<G1Projective>>(&e[0]).ok()?),
-            "commitment-g2" => record(&wire::de::<Commitment<G2Projective>>(&e[0]).ok()?),
-            "blinded-message" => record(&wire::de::<BlindedMessage>(&e[0]).ok()?),
-            "signature" => record(&wire::de::<Signature>(&wire::cat(vec![e[0].clone(), e[1].clone()])).ok()?),
-            "blinded-signature" => record(&wire::de::<BlindedSignature>(&wire::cat(vec![e[0].clone(), e[1].clone()])).ok()?),
-            "commitment-proof-g1" => { macro_rules! f { ($n:expr) => { record(&wire::de::<CommitmentProof<G1Projective, $n>>(&cp(&e[0], &e[1])).ok()?) } } with_n!(f) }
-            "commitment-proof-g2" => { macro_rules! f { ($n:expr) => { record(&wire::de::<CommitmentProof<G2Projective, $n>>(&cp(&e[0], &e[1])).ok()?) } } with_n!(f) }
-            "signature-request-proof" => { macro_rules! f { ($n:expr) => { record(&wire::de::<SignatureRequestProof<$n>>(&cp(&e[0], &e[1])).ok()?) } } with_n!(f) }
-            "signature-proof" => { macro_rules! f { ($n:expr) => { record(&wire::de::<SignatureProof<$n>>(&wire::cat(vec![e[0].clone(), e[1].clone(), cp(&e[2], &e[3])])).ok()?) } } with_n!(f) }
-            "pedersen-g1" => { macro_rules! f { ($n:expr) => { record(&wire::de::<PedersenParameters<G1Projective, $n>>(&wire::cat(vec![e[0].clone(), wire::arr(e[1..].to_vec())])).ok()?) } } with_n!(f) }
-            "pedersen-g2" => { macro_rules! f { ($n:expr) => { record(&wire::de::<PedersenParameters<G2Projective, $n>>(&wire::cat(vec![e[0].clone(), wire::arr(e[1..].to_vec())])).ok()?) } } with_n!(f) }
-            "public-key" => {
-                let b = wire::cat(vec![e[0].clone(), wire::arr(e[1..1 + n].to_vec()), e[1 + n].clone(), e[2 + n].clone(), wire::arr(e[3 + n..].to_vec())]);
-                macro_rules! f { ($n:expr) => { record(&wire::de::<PublicKey<$n>>(&b).ok()?) } }
-                with_n!(f)
-            }
-            "range-params" => {
-                let b = wire::cat(vec![e[..256].concat(), e[256].clone(), wire::arr(vec![e[257].clone()]), e[258].clone(), e[259].clone(), wire::arr(vec![e[260].clone()])]);
-                record(&wire::de::<RangeConstraintParameters>(&b).ok()?)
-            }
+        Some(match self.kind {
+            "commitment-g1" | "commitment-g2" | "blinded-message" => e[0].clone(),
+            "signature" | "blinded-signature" => wire::cat(vec![e[0].clone(), e[1].clone()]),
+            "commitment-proof-g1" | "commitment-proof-g2" | "signature-request-proof" => cp(&e[0], &e[1]),
+            "signature-proof" => wire::cat(vec![e[0].clone(), e[1].clone(), cp(&e[2], &e[3])]),
+            "pedersen-g1" | "pedersen-g2" => wire::cat(vec![e[0].clone(), wire::arr(e[1..].to_vec())]),
+            "public-key" => wire::cat(vec![e[0].clone(), wire::arr(e[1..1 + n].to_vec()), e[1 + n].clone(), e[2 + n].clone(), wire::arr(e[3 + n..].to_vec())]),
+            "range-params" => wire::cat(vec![e[..256].concat(), e[256].clone(), wire::arr(vec![e[257].clone()]), e[258].clone(), e[259].clone(), wire::arr(vec![e[260].clone()])]),
             "range-constraint" => {
                 let mut b = vec![];
                 for j in 0..9 {
                     b.extend(wire::cat(vec![e[4 * j].clone(), e[4 * j + 1].clone(), e[4 * j + 2].clone(), e[4 * j + 3].clone(), zero.clone(), wire::arr(vec![zero.clone()])]));
                 }
-                record(&wire::de::<RangeConstraint>(&b).ok()?)
+                b
             }
+            _ => return None,
+        })
+    }
+
+    /// build the real object and hash it through the public ChallengeBuilder API
+    fn hash(&self, book: &Book) -> Option<(Vec<u8>, Scalar)> { self.hash_then(book, None) }
+
+    /// … optionally followed, in the same builder, by a second object of the same kind
+    fn hash_then(&self, book: &Book, second: Option<&Obj>) -> Option<(Vec<u8>, Scalar)> {
+        let n = self.n;
+        macro_rules! go { ($t:ty) => {{
+            let a = wire::de::<$t>(&self.bytes(book)?).ok()?;
+            match second { None => record(&a), Some(o) => { let b = wire::de::<$t>(&o.bytes(book)?).ok()?; record(&Twice(&a, &b)) } }
+        }} }
+        macro_rules! plain { ($a:expr, $f:expr) => {{
+            let a = $a;
+            match second { None => record(&a), Some(o) => { let b = $f(o); record(&Twice(&a, &b)) } }
+        }} }
+        macro_rules! with_n { ($f:ident) => { match n { 1 => $f!(1), 2 => $f!(2), 3 => $f!(3), 5 => $f!(5), _ => None } } }
+        match self.kind {
+            "scalar" => plain!(self.atoms[0].1, |o: &Obj| o.atoms[0].1),
+            "g1affine" => plain!(book.g1a(self.atoms[0].1), |o: &Obj| book.g1a(o.atoms[0].1)),
+            "g1projective" => plain!(book.g1(self.atoms[0].1), |o: &Obj| book.g1(o.atoms[0].1)),
+            "g2affine" => plain!(book.g2a(self.atoms[0].1), |o: &Obj| book.g2a(o.atoms[0].1)),
+            "g2projective" => plain!(book.g2(self.atoms[0].1), |o: &Obj| book.g2(o.atoms[0].1)),
+            "commitment-g1" => go!(Commitment<G1Projective>),
+            "commitment-g2" => go!(Commitment<G2Projective>),
+            "blinded-message" => go!(BlindedMessage),
+            "signature" => go!(Signature),
+            "blinded-signature" => go!(BlindedSignature),
+            "commitment-proof-g1" => { macro_rules! f { ($n:expr) => { go!(CommitmentProof<G1Projective, $n>) } } with_n!(f) }
+            "commitment-proof-g2" => { macro_rules! f { ($n:expr) => { go!(CommitmentProof<G2Projective, $n>) } } with_n!(f) }
+            "signature-request-proof" => { macro_rules! f { ($n:expr) => { go!(SignatureRequestProof<$n>) } } with_n!(f) }
+            "signature-proof" => { macro_rules! f { ($n:expr) => { go!(SignatureProof<$n>) } } with_n!(f) }
+            "pedersen-g1" => { macro_rules! f { ($n:expr) => { go!(PedersenParameters<G1Projective, $n>) } } with_n!(f) }
+            "pedersen-g2" => { macro_rules! f { ($n:expr) => { go!(PedersenParameters<G2Projective, $n>) } } with_n!(f) }
+            "public-key" => { macro_rules! f { ($n:expr) => { go!(PublicKey<$n>) } } with_n!(f) }
+            "range-params" => go!(RangeConstraintParameters),
+            "range-constraint" => go!(RangeConstraint),
             _ => None,
         }
+    }
+}
+
+/// two objects consumed by one builder, one after the other
+struct Twice<'a, T: ChallengeInput>(&'a T, &'a T);
+impl<'a, T: ChallengeInput> ChallengeInput for Twice<'a, T> {
+    fn consume(&self, builder: &mut ChallengeBuilder) {
+        builder.consume(self.0);
+        builder.consume(self.1);
     }
 }
 
@@ -170,7 +199,12 @@ fn library_case(ctx: &mut Ctx, idx: usize, kind: &'static str, n: usize) {
         }
     }
     // every atom replaced: the challenge must change
-    let positions: Vec<usize> = if obj.atoms.len() > 40 && !ctx.thorough() { (0..obj.atoms.len()).step_by(7).collect() } else { (0..obj.atoms.len()).collect() };
+    // quick: every 7th atom of a long object, the offset rotating with the case index, first and last always
+    let positions: Vec<usize> = if obj.atoms.len() > 40 && !ctx.thorough() {
+        let mut v: Vec<usize> = ((idx % 7)..obj.atoms.len()).step_by(7).collect();
+        for e in [0, obj.atoms.len() - 1] { if !v.contains(&e) { v.push(e); } }
+        v
+    } else { (0..obj.atoms.len()).collect() };
     for i in positions {
         for alt in 0..3 {
             let mut o2 = Obj { kind, n, atoms: obj.atoms.clone() };
@@ -190,6 +224,46 @@ fn library_case(ctx: &mut Ctx, idx: usize, kind: &'static str, n: usize) {
                 }
                 None => ctx.count(&format!("atom-replaced:{}:not-decodable", kind)),
             }
+        }
+    }
+}
+
+/// The same kind of object consumed twice by one builder (`with(&a).with(&b)`): the hashed bytes are the model's
+/// atoms of `a` followed by those of `b`, and replacing any atom of the *second* object changes the challenge
+/// (a builder that remembers what it has already hashed must not skip a different object that merely looks alike).
+fn repeat_case(ctx: &mut Ctx, idx: usize, kind: &'static str, n: usize) {
+    if !ctx.begin_case(idx, &format!("bind-twice-{}-N{}", kind, n)) {
+        return;
+    }
+    let book = ctx.book.clone();
+    let a = make(ctx, kind, n);
+    let (bytes_aa, c_aa) = match a.hash_then(&book, Some(&a)) { Some(x) => x, None => { ctx.broken(&format!("cannot hash a {} twice", kind)); return; } };
+    let (bytes_a, _) = match a.hash(&book) { Some(x) => x, None => return };
+    ctx.evals += 1;
+    if bytes_aa != [bytes_a.clone(), bytes_a.clone()].concat() {
+        ctx.count(&format!("twice:{}:second-copy-hashed-differently", kind));
+        ctx.disagreements.push(json!({"kind": "model-vs-implementation", "case": ctx.case_id, "what": format!("a {} consumed twice by one builder is not hashed as its bytes twice ({} vs 2 x {} bytes)", kind, bytes_aa.len(), bytes_a.len())}));
+    } else {
+        ctx.count(&format!("twice:{}:bytes-twice", kind));
+    }
+    // the second object differs from the first in one atom (quick: a sample of positions incl. both ends)
+    let len = a.atoms.len();
+    let mut positions: Vec<usize> = if len > 12 && !ctx.thorough() { ((idx % 9)..len).step_by(9).collect() } else { (0..len).collect() };
+    for e in [0, len - 1] { if !positions.contains(&e) { positions.push(e); } }
+    for i in positions {
+        let mut b = Obj { kind, n, atoms: a.atoms.clone() };
+        b.atoms[i].1 = if ctx.prng.gen_range(0..2) == 0 { a.atoms[i].1 + Scalar::one() } else { nonzero(&mut ctx.prng) };
+        if b.atoms[i].1 == a.atoms[i].1 || (b.atoms[i].1 == Scalar::zero() && b.atoms[i].0 != K::S) { continue; }
+        ctx.evals += 1;
+        match a.hash_then(&book, Some(&b)) {
+            Some((_, c_ab)) => {
+                ctx.count(&format!("twice-second-altered:{}:{}", kind, if c_ab != c_aa { "challenge-changed" } else { "CHALLENGE-UNCHANGED" }));
+                if c_ab == c_aa {
+                    ctx.violation(&format!("a second {} in the same challenge that differs from the first in atom {} leaves the challenge unchanged", kind, i),
+                        json!({"class": "second-object-not-bound", "kind": kind, "N": n, "atom": i, "item": a.item()}));
+                }
+            }
+            None => ctx.count(&format!("twice-second-altered:{}:not-decodable", kind)),
         }
     }
 }
@@ -336,6 +410,14 @@ pub fn run(ctx: &mut Ctx) {
             for &n in ns {
                 idx += 1;
                 library_case(ctx, idx, k, n);
+            }
+        }
+    }
+    for (k, ns) in &kinds {
+        for &n in ns {
+            if ctx.thorough() || n == *ns.last().unwrap() {
+                idx += 1;
+                repeat_case(ctx, idx, k, n);
             }
         }
     }
